@@ -1,5 +1,5 @@
 (* C16 proofs: generateMirrorIndex, iterator *)
-From Coq Require Import List ZArith Bool Lia.
+From Coq Require Import List ZArith Bool Lia Permutation.
 From Coq Require Import QArith.
 From Gst Require Import lib.QAux C16.Model C16.Spec C16.Proofs_rank.
 Import ListNotations.
@@ -85,6 +85,17 @@ Proof.
   - rewrite mirror_fuel_S. rewrite mirror_fuel_S in H. destruct ((ix <? 0) || (nx <=? ix)); [apply IH; exact H|exact H].
 Qed.
 
+(* Grid::generateMirrorIndex as a whole: total for every nx >= 1 *)
+Lemma mirror_index_ok nx ix : 1 <= nx ->
+  exists v, mirror_index (Z.to_nat (2 * Z.abs ix + 2)) nx ix = Some v /\ 0 <= v < nx /\
+            (2 <= nx -> v = reflect nx ix) /\ (0 <= ix < nx -> v = ix).
+Proof.
+  intros Hn. unfold mirror_index. destruct (Z.leb_spec nx 1) as [H1|H1].
+  - exists 0. repeat split; lia.
+  - destruct (mirror_ok nx ix ltac:(lia)) as [E R]. exists (reflect nx ix).
+    repeat split; try assumption; try lia. intros Hi. apply reflect_inrange; lia.
+Qed.
+
 (* ---------------------------------------------------------------- iterator (default order) *)
 Lemma iter_next_fst nx it : fst (iter_next nx it) = rankToIndice nx it false.
 Proof. reflexivity. Qed.
@@ -101,27 +112,109 @@ Proof.
 Qed.
 
 (* ---------------------------------------------------------------- iterator with a user-supplied order *)
-Lemma iter_order_loop_oob counts : forall ord nval iech acc,
-  (exists o, In o ord /\ (length counts <= Z.to_nat (Z.abs o))%nat) ->
-  iter_order_loop counts ord nval iech acc = None.
+Definition od (o : Z) : nat := Z.to_nat (Z.abs o - 1).
+Lemma odim_some o : 1 <= Z.abs o -> odim o = Some (od o).
+Proof. intros H. unfold odim, od. destruct (Z.ltb_spec (Z.abs o - 1) 0); [lia|reflexivity]. Qed.
+
+Lemma upd_spec : forall l k v, (k < length l)%nat ->
+  exists l', upd l k v = Some l' /\ length l' = length l /\ nth k l' 0 = v /\ (forall p, p <> k -> nth p l' 0 = nth p l 0).
 Proof.
-  induction ord as [|o rest IH]; intros nval iech acc [o' [Hin Hlen]]; [destruct Hin|].
-  cbn [iter_order_loop].
-  destruct (nth_error counts (Z.to_nat (Z.abs o))) as [c|] eqn:E; [|reflexivity].
-  destruct (upd acc (Z.to_nat (Z.abs o)) (Z.quot iech (Z.quot nval c))) as [acc'|]; [|reflexivity].
-  apply IH. destruct Hin as [->|Hin].
-  - exfalso. apply nth_error_None in Hlen. congruence.
-  - exists o'. split; assumption.
+  induction l as [|x l IH]; intros k v Hk; simpl in Hk; [lia|].
+  destruct k as [|k].
+  - exists (v :: l). split; [reflexivity|]. split; [reflexivity|]. split; [reflexivity|].
+    intros [|p] Hp; [congruence|reflexivity].
+  - destruct (IH k v ltac:(lia)) as [l' [E [L [N U]]]]. exists (x :: l'). cbn [upd]. rewrite E.
+    split; [reflexivity|]. split; [cbn [length]; congruence|]. split; [exact N|].
+    intros [|p] Hp; [reflexivity|]. cbn [nth]. apply U. congruence.
 Qed.
 
-(* every order that iteratorInit accepts (each space dimension present, 1-based) makes iteratorNext
-   index its arrays beyond their end *)
-Lemma iter_order_refuted nx order it : (0 < length nx)%nat ->
-  iter_order_valid (length nx) order = true -> iter_next_order nx order it = None.
+Lemma iter_loop_spec counts : forall ord nval iech acc,
+  length acc = length counts ->
+  Forall (fun o => 1 <= Z.abs o /\ (od o < length counts)%nat) ord ->
+  NoDup (map od ord) ->
+  exists acc', iter_order_loop counts ord nval iech acc = Some acc' /\ length acc' = length acc /\
+     map (fun o => nth (od o) acc' 0) ord = r2i_rev (map (fun o => nth (od o) counts 0) ord) nval iech /\
+     (forall p, ~ In p (map od ord) -> nth p acc' 0 = nth p acc 0).
 Proof.
-  intros Hn Hv. unfold iter_next_order. apply iter_order_loop_oob.
-  unfold iter_order_valid in Hv. rewrite forallb_forall in Hv.
-  specialize (Hv (length nx - 1)%nat). rewrite existsb_exists in Hv.
-  destruct Hv as [o [Hin Ho]]; [apply in_seq; lia|].
-  apply Z.eqb_eq in Ho. exists o. split; [apply in_rev in Hin; exact Hin|]. lia.
+  induction ord as [|o rest IH]; intros nval iech acc Hl Hf Hnd.
+  - exists acc. repeat split.
+  - inversion Hf as [|? ? [Ho Hb] Hf']; subst. inversion Hnd as [|? ? Hnotin Hnd']; subst.
+    cbn [iter_order_loop]. rewrite (odim_some o Ho).
+    rewrite (nth_error_nth' counts 0 Hb).
+    set (c := nth (od o) counts 0). set (nval' := Z.quot nval c). set (dv := Z.quot iech nval').
+    destruct (upd_spec acc (od o) dv ltac:(lia)) as [acc1 [E1 [L1 [N1 U1]]]]. rewrite E1.
+    destruct (IH nval' (iech - dv * nval') acc1 ltac:(congruence) Hf' Hnd') as [acc' [E [L [M U]]]].
+    exists acc'. split; [exact E|]. split; [congruence|]. split.
+    + cbn [map r2i_rev]. fold c. fold nval'. fold dv. f_equal; [|exact M].
+      rewrite (U (od o) Hnotin). exact N1.
+    + intros p Hp. cbn [map] in Hp. rewrite (U p) by (intro Hin; apply Hp; right; exact Hin).
+      apply U1. intro Heq. apply Hp. left. congruence.
+Qed.
+
+Lemma prodZ_perm l l' : Permutation l l' -> prodZ l = prodZ l'.
+Proof.
+  induction 1 as [|x l l' H IH|x y l|l l' l'' H1 IH1 H2 IH2]; cbn [prodZ fold_right].
+  - reflexivity.
+  - fold (prodZ l). fold (prodZ l'). rewrite IH. reflexivity.
+  - ring.
+  - unfold prodZ in *. congruence.
+Qed.
+Lemma map_nth_seq (l : list Z) : map (fun p => nth p l 0) (seq 0 (length l)) = l.
+Proof.
+  induction l as [|a l IH]; [reflexivity|].
+  cbn [length]. rewrite <- cons_seq. rewrite <- seq_shift. cbn [map]. rewrite map_map. cbn [nth]. rewrite IH. reflexivity.
+Qed.
+
+(* a valid user order = a (signed, 1-based) permutation of the space dimensions.
+   One call of iteratorNext writes, read along the order from the slowest to the fastest dimension,
+   the mixed-radix digits of the iteration number for the permuted counts: in range, and they determine it. *)
+Lemma iter_order_spec nx order it :
+  Forall (fun o => 1 <= Z.abs o) order -> Permutation (map od order) (seq 0 (length nx)) ->
+  allpos nx -> 0 <= it < prodZ nx ->
+  exists idx, iter_next_order nx order it = Some idx /\ length idx = length nx /\
+    let nr := map (fun o => nth (od o) nx 0) (rev order) in
+    let digits := map (fun o => nth (od o) idx 0) (rev order) in
+    inrange nr digits /\ hv nr digits = it.
+Proof.
+  intros Hone Hperm Hpos Hit. unfold iter_next_order.
+  assert (Hperm' : Permutation (map od (rev order)) (seq 0 (length nx))).
+  { rewrite map_rev. eapply Permutation_trans; [apply Permutation_sym; apply Permutation_rev|exact Hperm]. }
+  assert (Hf : Forall (fun o => 1 <= Z.abs o /\ (od o < length nx)%nat) (rev order)).
+  { apply Forall_forall. intros o Hin. apply in_rev in Hin. split.
+    - rewrite Forall_forall in Hone. apply Hone. exact Hin.
+    - assert (In (od o) (seq 0 (length nx))) by (eapply Permutation_in; [exact Hperm|apply in_map; exact Hin]).
+      apply in_seq in H. lia. }
+  assert (Hnd : NoDup (map od (rev order))).
+  { eapply Permutation_NoDup; [apply Permutation_sym; exact Hperm'|apply seq_NoDup]. }
+  destruct (iter_loop_spec nx (rev order) (prodZ nx) it (map (fun _ => 0) nx) ltac:(apply map_length) Hf Hnd)
+    as [idx [E [L [M _]]]].
+  exists idx. split; [exact E|]. split; [rewrite L; apply map_length|].
+  cbv zeta. rewrite M.
+  set (nr := map (fun o => nth (od o) nx 0) (rev order)).
+  assert (Pnr : Permutation nr nx).
+  { unfold nr. rewrite <- (map_map od (fun p => nth p nx 0)).
+    eapply Permutation_trans; [apply Permutation_map; exact Hperm'|]. rewrite map_nth_seq. apply Permutation_refl. }
+  assert (Epr : prodZ nx = prodZ nr) by (symmetry; apply prodZ_perm; exact Pnr).
+  assert (Hposr : allpos nr) by (unfold allpos; eapply Permutation_Forall; [apply Permutation_sym; exact Pnr|exact Hpos]).
+  rewrite Epr in *. apply r2i_rev_spec; assumption.
+Qed.
+
+(* hence two different iteration numbers never give the same node *)
+Lemma iter_order_injective nx order it1 it2 idx :
+  Forall (fun o => 1 <= Z.abs o) order -> Permutation (map od order) (seq 0 (length nx)) ->
+  allpos nx -> 0 <= it1 < prodZ nx -> 0 <= it2 < prodZ nx ->
+  iter_next_order nx order it1 = Some idx -> iter_next_order nx order it2 = Some idx -> it1 = it2.
+Proof.
+  intros H1 HP Hpos Hi1 Hi2 E1 E2.
+  destruct (iter_order_spec nx order it1 H1 HP Hpos Hi1) as [i1 [F1 [_ [_ V1]]]].
+  destruct (iter_order_spec nx order it2 H1 HP Hpos Hi2) as [i2 [F2 [_ [_ V2]]]].
+  rewrite E1 in F1. rewrite E2 in F2. inversion F1; inversion F2; subst. congruence.
+Qed.
+
+(* the default order 1..ndim is such a permutation *)
+Lemma default_order_perm n : Forall (fun o => 1 <= Z.abs o) (default_order n) /\ map od (default_order n) = seq 0 n.
+Proof.
+  unfold default_order. split.
+  - apply Forall_forall. intros o Hin. apply in_map_iff in Hin. destruct Hin as [i [<- _]]. lia.
+  - rewrite map_map. rewrite <- (map_id (seq 0 n)) at 2. apply map_ext. intros i. unfold od. lia.
 Qed.
